@@ -1,8 +1,9 @@
 import PolyVerif.Model.LineText
 import PolyVerif.Gen.RebaseTags
 /-
-Model of poly/io/rebase (property C16), statement by statement, as the code is after commit
-13143f5 (`TrimLeft(line, " \t")`, `commercialParsingLine > 2`):
+Model of poly/io/rebase (property C16), statement by statement, as the code is after commits
+13143f5 (`TrimLeft(line, " \t")`, `commercialParsingLine > 2`) and a3fb5a0 (an empty `<2>` line leaves
+`Isoschizomers` as it is, i.e. nil in a fresh record):
 
   rebase.Parse  ↦ `parse`  (a fold of `step` over `strings.Split(file, "\n")`)
   rebase.Export ↦ `exportJ` (the JSON *value* `json.Marshal` writes: map keys sorted, struct
@@ -80,7 +81,10 @@ def from3 (line : Str) : Outcome Str := if line.length < 3 then .panic else .ok 
 /-- the second half of the loop body: the `switch` over `strings.Contains(line, "<n>")` -/
 def recordStep (st : PState) (line : Str) : Outcome PState :=
   if hasSub (tag 1) line then (from3 line).bind fun v => .ok { st with enzyme := { st.enzyme with name := v } }
-  else if hasSub (tag 2) line then (from3 line).bind fun v => .ok { st with enzyme := { st.enzyme with isoschizomers := split ',' v } }
+  else if hasSub (tag 2) line then
+    (from3 line).bind fun v =>
+      -- `if line[3:] != "" { enzyme.Isoschizomers = strings.Split(line[3:], ",") }`
+      if v = [] then .ok st else .ok { st with enzyme := { st.enzyme with isoschizomers := split ',' v } }
   else if hasSub (tag 3) line then (from3 line).bind fun v => .ok { st with enzyme := { st.enzyme with recognitionSequence := v } }
   else if hasSub (tag 4) line then (from3 line).bind fun v => .ok { st with enzyme := { st.enzyme with methylationSite := v } }
   else if hasSub (tag 5) line then (from3 line).bind fun v => .ok { st with enzyme := { st.enzyme with microOrganism := v } }
